@@ -3,6 +3,8 @@ package c17
 
 import (
 	"fmt"
+	codec "github.com/uhppoted/uhppote-core/encoding/UTO311-L0x"
+	"github.com/uhppoted/uhppote-core/messages"
 	"net/netip"
 	"os"
 	"reflect"
@@ -204,6 +206,16 @@ func checkHistory(h history) *rp.Fail {
 		case "mutate-devicelist":
 			m := u.DeviceList()
 			for k, v := range m {
+				// appending to a returned door list (and writing into whatever spare capacity it has) is the caller's business only
+				if s.I%3 != 1 {
+					if full := v.Doors[:cap(v.Doors)]; len(full) > len(v.Doors) {
+						for i := len(v.Doors); i < len(full); i++ {
+							full[i] = "written into spare capacity"
+						}
+					}
+					v.Doors = append(v.Doors, "appended by the caller", "and another")
+					m[k] = v
+				}
 				switch s.J % 3 {
 				case 0:
 					delete(m, k)
@@ -332,6 +344,9 @@ func checkHistory(h history) *rp.Fail {
 			// re-reading st later re-computes the record from the same object:
 		case "clone":
 			if f := checkClones(s); f != nil {
+				return f
+			}
+			if f := checkReusedVariable(n); f != nil {
 				return f
 			}
 			observedAfterMutation = true
@@ -546,6 +561,55 @@ func checkClones(s step) *rp.Fail {
 		}
 	}
 	return nil
+}
+
+// checkReusedVariable: a reply decoded into a variable that already holds an earlier reply (a receive loop with one variable)
+// - the earlier value, kept as a copy of the struct, is not affected by the later decode.
+func checkReusedVariable(n int) *rp.Fail {
+	for _, x := range []struct {
+		op string
+		v  any
+	}{{"GetDevice", &messages.GetDeviceResponse{}}, {"GetStatus", &messages.GetStatusResponse{}}, {"GetCardByID", &messages.GetCardByIDResponse{}},
+		{"GetTimeProfile", &messages.GetTimeProfileResponse{}}, {"GetListener", &messages.GetListenerResponse{}}, {"GetTime", &messages.GetTimeResponse{}}, {"GetEvent", &messages.GetEventResponse{}}} {
+		call := spec.Call{Op: x.op, Serial: 405419896, Card: 8165537, Profile: 29, Index: 17}
+		first, second := validReply(call, n), validReply(call, n+3)
+		if first == nil {
+			continue
+		}
+		if err := codec.Unmarshal(append([]byte(nil), first...), x.v); err != nil {
+			continue
+		}
+		kept := reflect.New(reflect.TypeOf(x.v).Elem()).Elem()
+		kept.Set(reflect.ValueOf(x.v).Elem())
+		before := fmt.Sprintf("%+v", derefAll(kept))
+		if err := codec.Unmarshal(append([]byte(nil), second...), x.v); err != nil {
+			continue
+		}
+		if now := fmt.Sprintf("%+v", derefAll(kept)); now != before {
+			return rp.Failf("result/changed-by-next-decode-into-the-same-variable", "%s: a copy of the reply decoded from %x changed when the next reply %x was decoded into the same variable:\n  before: %s\n  now:    %s", x.op, first, second, before, now)
+		}
+	}
+	return nil
+}
+
+// derefAll renders a struct with pointer fields followed (fmt prints pointers as addresses).
+func derefAll(v reflect.Value) string {
+	var b strings.Builder
+	for i := 0; i < v.NumField(); i++ {
+		f := v.Field(i)
+		if !v.Type().Field(i).IsExported() {
+			continue
+		}
+		for f.Kind() == reflect.Ptr && !f.IsNil() {
+			f = f.Elem()
+		}
+		if f.Kind() == reflect.Struct && f.Type().PkgPath() != "time" && f.NumField() > 0 && f.Type().Field(0).IsExported() {
+			fmt.Fprintf(&b, "%s:{%s} ", v.Type().Field(i).Name, derefAll(f))
+			continue
+		}
+		fmt.Fprintf(&b, "%s:%v ", v.Type().Field(i).Name, f.Interface())
+	}
+	return b.String()
 }
 
 func genHistory(t *rapid.T) history {
